@@ -36,6 +36,11 @@ def warmup():
 def _bounds(rng):
     lo = 10 ** rng.uniform(-3, 2)
     hi = lo * 10 ** rng.uniform(0.1, 3)
+    r = rng.random()
+    if r < 0.08:
+        return [hi, lo]          # given in reverse order
+    if r < 0.12:
+        return [lo, lo]          # degenerate: equal bounds
     return [lo, hi]
 
 
